@@ -19,8 +19,6 @@ import (
 	"time"
 	"unsafe"
 
-	"go.uber.org/zap"
-
 	"github.com/metal-toolbox/audito-maldito/ingesters/namedpipe"
 	"github.com/metal-toolbox/audito-maldito/internal/health"
 	"github.com/metal-toolbox/audito-maldito/internal/verif/mc"
@@ -73,7 +71,7 @@ func feedOpt(path string, delim byte, chunks []string, failAt int, pause time.Du
 		panic(err)
 	}
 	defer os.Remove(path)
-	npi := namedpipe.NewNamedPipeIngester(zap.NewNop().Sugar(), health.NewHealth())
+	npi := namedpipe.NewNamedPipeIngester(mc.DebugLogger(), health.NewHealth())
 	var res result
 	done := make(chan struct{})
 	ctx, cancel := context.WithCancel(context.Background())
